@@ -157,22 +157,23 @@ BaseRows(stmt, store) ==
   IN IF IsAggStmt(stmt) THEN AggRows(stmt, ps, env)
      ELSE [i \in 1..Len(ps) |-> ProjectRow(stmt.fields, ps[i], env)]
 
-Modelled(stmt, store) ==
+\* ... B variants take the base rows already computed (TLC does not memoise operator applications)
+ModelledB(stmt, store, base) ==
   /\ Evaluable(store, stmt.where, EnvOf(stmt))
-  /\ \A i \in 1..Len(BaseRows(stmt, store)) : ~RowBad(BaseRows(stmt, store)[i])
+  /\ \A i \in 1..Len(base) : ~RowBad(base[i])
   /\ (IsAggStmt(stmt) /\ stmt.group # <<>>) =>
-        \A i \in 1..Len(Filtered(store, stmt.where, EnvOf(stmt))) :
-            ~RowBad(GroupKey(stmt, Filtered(store, stmt.where, EnvOf(stmt))[i], EnvOf(stmt)))
+        LET ps == Filtered(store, stmt.where, EnvOf(stmt)) IN
+        \A i \in 1..Len(ps) : ~RowBad(GroupKey(stmt, ps[i], EnvOf(stmt)))
+Modelled(stmt, store) == ModelledB(stmt, store, BaseRows(stmt, store))
 
-\* order by key asc alone (on a non-aggregate select) is the natural order
-\* is `rows` an allowed answer to stmt on store ?
-SelectOK(stmt, store, rows) ==
-  LET base == BaseRows(stmt, store) IN
+\* is `rows` an allowed answer to stmt, whose rows before ORDER BY / LIMIT are `base` ?
+SelectOKB(stmt, base, rows) ==
   IF stmt.order = <<>> THEN
        rows = (IF stmt.lim.has THEN Take(base, stmt.lim.s, stmt.lim.n) ELSE base)
   ELSE IF ~Comparable(base, stmt.order) THEN TRUE            \* no documented order: nothing to conclude
   ELSE IF stmt.lim.has THEN ValidSlice(rows, base, stmt.order, stmt.lim.s, stmt.lim.n)
   ELSE ValidOrder(rows, base, stmt.order)
+SelectOK(stmt, store, rows) == SelectOKB(stmt, BaseRows(stmt, store), rows)
 
 -----------------------------------------------------------------------------
 (* Writes *)
